@@ -388,9 +388,15 @@ class ClientApiScenario(explore.Scenario):
                 flags = (1 if allow else 0) | (2 if repl else 0) | \
                     (4 if noq else 0)
                 code, acq, lost, replaced = m.request(c, n, flags)
-                got = self._outcome(conn.requestBusName(
-                    n, allowReplacement=allow, replaceExisting=repl,
-                    doNotQueue=noq, errbackUnlessAcquired=errb), w.sys)
+                # (the options by keyword, or by position in the documented
+                # order)
+                if ev[2] % 2:
+                    d_ = conn.requestBusName(n, allow, repl, noq, errb)
+                else:
+                    d_ = conn.requestBusName(
+                        n, allowReplacement=allow, replaceExisting=repl,
+                        doNotQueue=noq, errbackUnlessAcquired=errb)
+                got = self._outcome(d_, w.sys)
                 if errb and code in (2, 3):
                     want = [('err', 'FailedToAcquireName', code)]
                 else:
